@@ -33,7 +33,11 @@ def _mid_err(self):
 
 
 def _relpose_err(self):
-    return (self.estimate - (self.vertices[1].pose - self.vertices[0].pose)).to_compact()
+    err = self.estimate - (self.vertices[1].pose - self.vertices[0].pose)
+    c = err.to_compact()
+    if len(err) == 7 and err[6] < 0.0:  # same rotation, representative with w >= 0 (matches the reference twin)
+        c[3:] *= -1.0
+    return c
 
 
 def _dist_err(self):
@@ -156,6 +160,9 @@ def _make(tag, flavour):
             def calc_jacobians(self):
                 p1, p2 = self.vertices[0].pose, self.vertices[1].pose
                 A = self.estimate.jacobian_self_ominus_other_wrt_other_compact(p2 - p1)
+                err = self.estimate - (p2 - p1)
+                if len(err) == 7 and err[6] < 0.0:
+                    A = np.vstack([A[:3], -A[3:]])
                 return [
                     np.dot(np.dot(A, p2.jacobian_self_ominus_other_wrt_other(p1)), p1.jacobian_boxplus()),
                     np.dot(np.dot(A, p2.jacobian_self_ominus_other_wrt_self(p1)), p2.jacobian_boxplus()),
